@@ -301,6 +301,85 @@ func c06CraftedPolynomials(run *mon.Run) {
 	run.Require(run.Counter("crafted-polynomial.groups") >= int64(len(jobs)*9/10), "crafted-polynomial groups incomplete")
 }
 
+// c06EveryThreshold: the stateless reconstruction for EVERY threshold t = 1..253 (quick: every t up to
+// 72 and every fourth above), with t+1 shares of a harness-chosen degree-t polynomial held by signers
+// spread over 0..253 in a shuffled order. A boundary in the interpolation code (limb batches, stack
+// buffers, window tables) sits at some exact number of shares; the sampled groups of the main leg hit
+// only a few of them.
+func c06EveryThreshold(run *mon.Run) {
+	h := crypto.NewExpandMsgXOFKMAC128("thr-every")
+	msg := []byte("every threshold")
+	H, err := hashPoint(msg, h, "kmac:thr-every")
+	if err != nil {
+		run.Violate("C06:hash-point", err.Error(), nil)
+		return
+	}
+	var wg sync.WaitGroup
+	sem := make(chan struct{}, 16)
+	for t := 1; t <= 253; t++ {
+		if run.Quick() && t > 72 && t%4 != 1 && t < 250 {
+			continue
+		}
+		wg.Add(1)
+		sem <- struct{}{}
+		go func(t int) {
+			defer wg.Done()
+			defer func() { <-sem }()
+			defer run.Protect("c06 every-threshold")
+			r := run.Rand(fmt.Sprintf("every-t-%d", t))
+			n := 254
+			if t%3 == 0 {
+				n = t + 1 + r.IntN(254-t)
+			}
+			coef := make([]*big.Int, t+1)
+			for i := range coef {
+				coef[i] = randScalar(r)
+			}
+			eval := func(x int64) *big.Int {
+				acc := new(big.Int)
+				xx := big.NewInt(x)
+				for i := t; i >= 0; i-- {
+					acc = ref.Fr.Add(ref.Fr.Mul(acc, xx), coef[i])
+				}
+				return acc
+			}
+			signers := r.Perm(n)[:t+1]
+			if t%5 == 0 {
+				sort.Ints(signers)
+			}
+			shares := make([]crypto.Signature, t+1)
+			for k, sg := range signers {
+				y := eval(int64(sg + 1))
+				if y.Sign() == 0 {
+					return
+				}
+				s, err := skFromInt(y).Sign(msg, h)
+				if err != nil {
+					return
+				}
+				shares[k] = s
+			}
+			want := ref.EncodeG1(ref.E1.Mul(H, coef[0]))
+			rep := map[string]any{"n": n, "t": t, "signers": signers, "secret": coef[0].Text(16)}
+			var out crypto.Signature
+			var e error
+			if run.Guard("BLSReconstructThresholdSignature", rep, func() { out, e = crypto.BLSReconstructThresholdSignature(n, t, shares, signers) }) {
+				return
+			}
+			run.Eval(1)
+			run.Count("every-threshold.values", 1)
+			if e != nil || !bytes.Equal(out, want) {
+				run.Violate("C06:stateless-reconstruction:every-threshold", fmt.Sprintf("BLSReconstructThresholdSignature(n=%d, t=%d) from %d valid shares = %x (err %v), reference [P(0)]H = %x", n, t, t+1, []byte(out), e, want), rep)
+			}
+			if t%16 == 0 {
+				run.Shape(fmt.Sprintf("every-threshold|%d", t))
+			}
+		}(t)
+	}
+	wg.Wait()
+	run.Require(run.Counter("every-threshold.values") >= 100, "threshold sweep incomplete")
+}
+
 func dedupInts(xs []int) []int {
 	seen := map[int]bool{}
 	var out []int
@@ -468,6 +547,7 @@ func C06(run *mon.Run) {
 	}
 	wg.Wait()
 	c06CraftedPolynomials(run)
+	c06EveryThreshold(run)
 	run.Require(run.Counter("small-pairs") == int64(len(pairs)), "not every (n,t) pair with n<=7 completed")
 	for _, p := range []string{"ascending-low", "top-block", "descending", "alternating-low-high", "first-largest", "random"} {
 		run.Require(run.Counter("pattern."+p) > 0, "limb pattern not exercised: "+p)
